@@ -84,7 +84,7 @@ func hmacProbe(h hash.Hash, probe []byte) (out []byte, perr string) {
 }
 
 // c07CheckObjects: every ready-made object answers like the reference keyed with its slice.
-func c07CheckObjects(w *World, su Suite, o *security.IKESAKey, want ref.IKEKeys, who string, probe []byte, rs uint64) bool {
+func c07CheckObjects(w *World, su Suite, o *security.IKESAKey, want ref.IKEKeys, who string, probe []byte, rs uint64, wipe ...bool) bool {
 	ok := true
 	cmp := func(name string, got, exp []byte) {
 		if !bytes.Equal(got, exp) {
@@ -101,6 +101,15 @@ func c07CheckObjects(w *World, su Suite, o *security.IKESAKey, want ref.IKEKeys,
 	cmp("SK_pr", o.SK_pr, want.SKpr)
 	if !ok {
 		return false
+	}
+	if len(wipe) > 0 && wipe[0] {
+		// key hygiene: the objects exist, so the caller zeroises its copies of the raw keys before the first use of any object
+		for _, b := range [][]byte{o.SK_d, o.SK_ai, o.SK_ar, o.SK_ei, o.SK_er, o.SK_pi, o.SK_pr} {
+			for i := range b {
+				b[i] = 0
+			}
+		}
+		w.stats.inc("c07_raw_keys_zeroised_before_first_use")
 	}
 	p, ig := su.refPrf(), su.refInteg()
 	hm := func(name string, h hash.Hash, exp []byte) {
@@ -190,9 +199,13 @@ func c07Mutual(w *World, su Suite, a, b *security.IKESAKey, probe []byte, rs uin
 
 // builtProposal makes the IKE proposal with the Build* helpers (IANA ids from
 // the RFCs), optionally followed by further, ignored transforms.
-func builtProposal(su Suite, extra bool) *message.Proposal {
+func builtProposal(su Suite, extra bool, spi ...[]byte) *message.Proposal {
 	var sa message.SecurityAssociation
-	p := sa.Proposals.BuildProposal(1, 1, nil)
+	var pspi []byte
+	if len(spi) > 0 {
+		pspi = spi[0] // an IKE proposal that carries an SPI (IKE SA rekey, RFC 7296 §3.3.1)
+	}
+	p := sa.Proposals.BuildProposal(1, 1, pspi)
 	at := uint16(14)
 	bits := uint16(su.Encr * 8)
 	p.EncryptionAlgorithm.BuildTransform(1, 12, &at, &bits, nil)
@@ -260,7 +273,11 @@ func opHandshake(w *World, s *Step) (string, string) {
 		pubI := oi.DhInfo.GetPublicValue(x)
 		var prop *message.Proposal
 		if s.ViaProp {
-			prop = builtProposal(su, s.N == 1)
+			if s.N == 2 {
+				prop = builtProposal(su, false, NewRng(s.SpiI^s.SpiR).Bytes(8))
+			} else {
+				prop = builtProposal(su, s.N == 1)
+			}
 		} else {
 			prop, err = oi.ToProposal()
 			if err != nil {
@@ -341,10 +358,13 @@ func opKDF(w *World, s *Step) (string, string) {
 	want := ref.DeriveIKE(su.refPrf(), su.refInteg(), su.Encr, s.Nonce, s.Secret, s.SpiI, s.SpiR)
 	probe := NewRng(s.SpiI ^ 0x51).Bytes(1 + int(s.SpiR%90))
 	okA := c07CheckObjects(w, su, a, want, "party A", probe, s.SpiI)
-	okB := c07CheckObjects(w, su, b, want, "party B", probe, s.SpiR)
+	okB := c07CheckObjects(w, su, b, want, "party B", probe, s.SpiR, s.N == 2)
 	if okA && okB {
 		c07Mutual(w, su, a, b, probe, s.SpiI^s.SpiR)
 		c07Keep(w, su, a, want, "party A")
+	}
+	if s.InPlace && okB {
+		c07InPlace(w, s, su, probe)
 	}
 	if len(s.Nonce2) > 0 && okB {
 		// the same key object is keyed again (re-derivation with new nonces): it must then hold exactly the new keys
@@ -378,6 +398,36 @@ func opKDF(w *World, s *Step) (string, string) {
 	return "ok", abs
 }
 
+// c07InPlace: one connection context with fixed nonce / g^ir buffers keys its SA object, later refills the SAME buffers
+// with the next exchange's values and keys the SAME object again for the same SPI pair (re-establishment).
+func c07InPlace(w *World, s *Step, su Suite, probe []byte) {
+	nb, sb := clone(s.Nonce), clone(s.Secret)
+	o := &security.IKESAKey{DhInfo: libDH(su.DH), EncrInfo: libEncr(su.Encr), IntegInfo: libInteg(su.Integ), PrfInfo: libPrf(su.Prf)}
+	res := &callResult{}
+	guard(res, func() { res.Err = o.GenerateKeyForIKESA(nb, sb, s.SpiI, s.SpiR) })
+	if res.class() != "ok" {
+		return // reported by the first derivations of this step
+	}
+	r := NewRng(s.SpiI ^ s.SpiR ^ 0x1f)
+	copy(nb, r.Bytes(len(nb)))
+	copy(sb, r.Bytes(len(sb)))
+	want2 := ref.DeriveIKE(su.refPrf(), su.refInteg(), su.Encr, nb, sb, s.SpiI, s.SpiR)
+	guard(res, func() { res.Err = o.GenerateKeyForIKESA(nb, sb, s.SpiI, s.SpiR) })
+	switch res.class() {
+	case "panic":
+		w.violate("rederivation_panic", panicKey(res), "a second GenerateKeyForIKESA on the same key object panicked: %s", res.Panic)
+	case "err":
+		w.stats.inc("c07_rederivation_refused")
+	default:
+		before := len(w.viol)
+		c07CheckObjects(w, su, o, want2, "SA object keyed again from the caller's refilled nonce and secret buffers", probe, s.SpiR^11)
+		for i := before; i < len(w.viol); i++ {
+			w.viol[i].Oracle = "rederivation_on_same_object_wrong"
+		}
+		w.stats.inc("c07_rederivations_from_refilled_buffers")
+	}
+}
+
 func genLen512(r *Rng) int {
 	switch r.Intn(8) {
 	case 0:
@@ -406,7 +456,7 @@ func genC07(r *Rng, idx int, tier string) *Scenario {
 			st := Step{Op: "handshake", Suite: &su, Nonce: r.Bytes(r.Range(1, 256)), Nonce2: r.Bytes(r.Range(0, 256)),
 				SpiI: r.U64(), SpiR: r.U64(), Rand: genDHRand(r), Rand2: genDHRand(r), ViaProp: r.Bool()}
 			if st.ViaProp && r.Bool() {
-				st.N = 1
+				st.N = Pick(r, 1, 1, 2)
 			}
 			sc.Steps = append(sc.Steps, st)
 		} else {
@@ -423,6 +473,10 @@ func genC07(r *Rng, idx int, tier string) *Scenario {
 			}
 			if r.Chance(1, 4) {
 				st.Nonce2 = r.Bytes(genLen512(r))
+			}
+			st.InPlace = r.Chance(1, 6)
+			if r.Chance(1, 6) {
+				st.N = 2 // party B zeroises its raw keys before first use of its objects
 			}
 			sc.Steps = append(sc.Steps, st)
 		}
